@@ -84,7 +84,7 @@ def classify_outcome(op, exp, out, mp=False):
             if not props:
                 props.add("C17")
         else:
-            stream_kind = op.get("kind") in ("file", "mem", "bytesio", "bufreader")
+            stream_kind = op.get("kind") in ("file", "mem", "bytesio", "bufreader", "rwfile")
             if val in ("NonMatchingChecksum", "NonMatchingObjSize"):
                 props.update(["C06", "C19"])
             elif val in M.ALREADY:
